@@ -265,7 +265,581 @@ pub mod tn1 {
 }
 
 #[allow(unused, non_snake_case, clippy::all)]
-pub mod tj0 {
+pub mod bn3 {
+   use ascent::*;
+   use ascent::aggregators::*;
+   use ascent::lattice::{Dual, set::Set};
+   use crate::common::*;
+   ascent! {
+      pub struct Prog;
+      relation r0(i64, i64);
+      relation r1(i64, i64);
+      relation r2(i64);
+      relation r3(i64);
+      relation r4(i64);
+      #[ds(ascent_byods_rels::eqrel)] relation r5(i64, i64);
+      relation r6(i64, i64);
+      relation r7(i64, i64);
+      relation r8(i64, i64);
+      relation r9(i64, i64);
+      relation r10(i64);
+      relation r11(i64, i64);
+      relation r12(i64, i64);
+      relation r13(i64, i64);
+      relation r14(i64);
+      relation r15(i64, i64);
+      relation r16(i64, i64);
+      relation r17(i64, i64);
+      relation r18(i64, i64);
+      relation r19(i64, i64);
+      relation r20(i64);
+      relation r21(i64);
+      relation r22(i64, i64);
+      r5(v0, v1) <-- r0(v0, v1);
+      r5(v1, v0) <-- r1(v0, v1);
+      r6(v0, v1) <-- r5(v0, v1);
+      r7(v0, v1) <-- r2(v0), r5(v0, v1);
+      r8(1, v1) <-- r5(1, v1);
+      r9(v0, v1) <-- r5(v0, v1), r10(v0);
+      r11(v0, v1) <-- r3(v1), r5(v0, v1);
+      r12(v0, 3) <-- r5(v0, 3);
+      r13(v0, v1) <-- r5(v0, v1), r14(v1);
+      r15(v0, v1) <-- r2(v0), r3(v1), r5(v0, v1);
+      r16(3, 1) <-- r5(3, 1);
+      r17(v0, v1) <-- r18(v0, v1), r5(v0, v1);
+      r19(v0, v1) <-- r5(v0, v1), r18(v0, v1);
+      r20(v0) <-- r5(v0, v1), r12(0, v2) if ((*v1) < 1);
+      r21(v2) <-- r5(v0, v1) if ((*v1) <= 2) let v2 = ((*v1) + 0), if (v2 <= 6);
+      r22(v0, v0) <-- r5(v0, 3);
+   }
+   pub struct Inst { p: Prog, pool: Option<ascent::rayon::ThreadPool> }
+   pub fn make(pool: Option<usize>) -> Box<dyn Driver> {
+      let pool = pool.map(|n| ascent::rayon::ThreadPoolBuilder::new().num_threads(n).build().unwrap());
+      let p = Default::default();
+      Box::new(Inst { p, pool })
+   }
+   impl Driver for Inst {
+      fn load(&mut self, rel: usize, rows: &[Sexp], append: bool) -> Option<()> {
+         match rel {
+         0 => { let v: Vec<(i64,i64,)> = parse_rows(rows)?; if append { self.p.r0.extend(v) } else { self.p.r0 = v } },
+         1 => { let v: Vec<(i64,i64,)> = parse_rows(rows)?; if append { self.p.r1.extend(v) } else { self.p.r1 = v } },
+         2 => { let v: Vec<(i64,)> = parse_rows(rows)?; if append { self.p.r2.extend(v) } else { self.p.r2 = v } },
+         3 => { let v: Vec<(i64,)> = parse_rows(rows)?; if append { self.p.r3.extend(v) } else { self.p.r3 = v } },
+         4 => { let v: Vec<(i64,)> = parse_rows(rows)?; if append { self.p.r4.extend(v) } else { self.p.r4 = v } },
+         5 => return None,
+         6 => { let v: Vec<(i64,i64,)> = parse_rows(rows)?; if append { self.p.r6.extend(v) } else { self.p.r6 = v } },
+         7 => { let v: Vec<(i64,i64,)> = parse_rows(rows)?; if append { self.p.r7.extend(v) } else { self.p.r7 = v } },
+         8 => { let v: Vec<(i64,i64,)> = parse_rows(rows)?; if append { self.p.r8.extend(v) } else { self.p.r8 = v } },
+         9 => { let v: Vec<(i64,i64,)> = parse_rows(rows)?; if append { self.p.r9.extend(v) } else { self.p.r9 = v } },
+         10 => { let v: Vec<(i64,)> = parse_rows(rows)?; if append { self.p.r10.extend(v) } else { self.p.r10 = v } },
+         11 => { let v: Vec<(i64,i64,)> = parse_rows(rows)?; if append { self.p.r11.extend(v) } else { self.p.r11 = v } },
+         12 => { let v: Vec<(i64,i64,)> = parse_rows(rows)?; if append { self.p.r12.extend(v) } else { self.p.r12 = v } },
+         13 => { let v: Vec<(i64,i64,)> = parse_rows(rows)?; if append { self.p.r13.extend(v) } else { self.p.r13 = v } },
+         14 => { let v: Vec<(i64,)> = parse_rows(rows)?; if append { self.p.r14.extend(v) } else { self.p.r14 = v } },
+         15 => { let v: Vec<(i64,i64,)> = parse_rows(rows)?; if append { self.p.r15.extend(v) } else { self.p.r15 = v } },
+         16 => { let v: Vec<(i64,i64,)> = parse_rows(rows)?; if append { self.p.r16.extend(v) } else { self.p.r16 = v } },
+         17 => { let v: Vec<(i64,i64,)> = parse_rows(rows)?; if append { self.p.r17.extend(v) } else { self.p.r17 = v } },
+         18 => { let v: Vec<(i64,i64,)> = parse_rows(rows)?; if append { self.p.r18.extend(v) } else { self.p.r18 = v } },
+         19 => { let v: Vec<(i64,i64,)> = parse_rows(rows)?; if append { self.p.r19.extend(v) } else { self.p.r19 = v } },
+         20 => { let v: Vec<(i64,)> = parse_rows(rows)?; if append { self.p.r20.extend(v) } else { self.p.r20 = v } },
+         21 => { let v: Vec<(i64,)> = parse_rows(rows)?; if append { self.p.r21.extend(v) } else { self.p.r21 = v } },
+         22 => { let v: Vec<(i64,i64,)> = parse_rows(rows)?; if append { self.p.r22.extend(v) } else { self.p.r22 = v } },
+            _ => return None,
+         }
+         Some(())
+      }
+      fn run(&mut self) { self.p.run() }
+      fn run_here(&mut self) { self.p.run() }
+      fn run_timeout(&mut self, k: usize) -> Option<bool> { let _ = k; None }
+      fn dump(&self) -> String { vec![dump_rel(0, self.p.r0.iter().map(Row::render).collect()), dump_rel(1, self.p.r1.iter().map(Row::render).collect()), dump_rel(2, self.p.r2.iter().map(Row::render).collect()), dump_rel(3, self.p.r3.iter().map(Row::render).collect()), dump_rel(4, self.p.r4.iter().map(Row::render).collect()), dump_rel(5, self.p.r5.iter().map(Row::render).collect()), dump_rel(6, self.p.r6.iter().map(Row::render).collect()), dump_rel(7, self.p.r7.iter().map(Row::render).collect()), dump_rel(8, self.p.r8.iter().map(Row::render).collect()), dump_rel(9, self.p.r9.iter().map(Row::render).collect()), dump_rel(10, self.p.r10.iter().map(Row::render).collect()), dump_rel(11, self.p.r11.iter().map(Row::render).collect()), dump_rel(12, self.p.r12.iter().map(Row::render).collect()), dump_rel(13, self.p.r13.iter().map(Row::render).collect()), dump_rel(14, self.p.r14.iter().map(Row::render).collect()), dump_rel(15, self.p.r15.iter().map(Row::render).collect()), dump_rel(16, self.p.r16.iter().map(Row::render).collect()), dump_rel(17, self.p.r17.iter().map(Row::render).collect()), dump_rel(18, self.p.r18.iter().map(Row::render).collect()), dump_rel(19, self.p.r19.iter().map(Row::render).collect()), dump_rel(20, self.p.r20.iter().map(Row::render).collect()), dump_rel(21, self.p.r21.iter().map(Row::render).collect()), dump_rel(22, self.p.r22.iter().map(Row::render).collect())].join(" | ") }
+      fn iters(&self) -> String { format!("iters {}", self.p.scc_iters.iter().map(|x| x.to_string()).collect::<Vec<_>>().join(" ")) }
+   }
+}
+
+#[allow(unused, non_snake_case, clippy::all)]
+pub mod br4 {
+   use ascent::*;
+   use ascent::aggregators::*;
+   use ascent::lattice::{Dual, set::Set};
+   use crate::common::*;
+   ascent! {
+      pub struct Prog;
+      relation r0(i64, i64);
+      relation r1(i64, i64);
+      relation r2(i64);
+      relation r3(i64);
+      relation r4(i64);
+      #[ds(ascent_byods_rels::eqrel)] relation r5(i64, i64);
+      relation r6(i64, i64);
+      relation r7(i64, i64);
+      relation r8(i64, i64);
+      relation r9(i64, i64);
+      relation r10(i64, i64);
+      relation r11(i64, i64);
+      relation r12(i64, i64);
+      relation r13(i64);
+      relation r14(i64, i64);
+      relation r15(i64, i64);
+      relation r16(i64, i64);
+      relation r17(i64, i64);
+      relation r18(i64, i64);
+      relation r19(i64, i64);
+      relation r20(i64);
+      relation r21(i64, i64);
+      relation r22(i64, i64);
+      relation r23(i64, i64);
+      relation r24(i64, i64);
+      relation r25(i64, i64);
+      relation r26(i64, i64);
+      relation r27(i64, i64);
+      relation r28(i64, i64);
+      relation r29(i64, i64);
+      relation r30(i64, i64);
+      relation r31(i64);
+      r5(v0, v1) <-- r4(v0), r0(v0, v1);
+      r4(v1) <-- r4(v0), r5(v0, v1);
+      r5(v2, v3) <-- r5(v0, v1), r1(v0, v2), r1(v1, v3);
+      r6(v0, v1) <-- r5(v0, v1);
+      r5(v0, v1) <-- r6(v0, v1);
+      r7(v0, v1) <-- r5(v0, v1);
+      r8(v0, v1) <-- r2(v0), r5(v0, v1);
+      r5(v0, v1) <-- r8(v0, v1);
+      r9(v0, v1) <-- r2(v0), r5(v0, v1);
+      r10(1, v1) <-- r5(1, v1);
+      r5(v0, v1) <-- r10(v0, v1);
+      r11(1, v1) <-- r5(1, v1);
+      r12(v0, v1) <-- r5(v0, v1), r13(v0);
+      r5(v0, v1) <-- r12(v0, v1);
+      r14(v0, v1) <-- r5(v0, v1), r13(v0);
+      r15(v0, v1) <-- r3(v1), r5(v0, v1);
+      r5(v0, v1) <-- r15(v0, v1);
+      r16(v0, v1) <-- r3(v1), r5(v0, v1);
+      r17(v0, 1) <-- r5(v0, 1);
+      r5(v0, v1) <-- r17(v0, v1);
+      r18(v0, 2) <-- r5(v0, 2);
+      r19(v0, v1) <-- r5(v0, v1), r20(v1);
+      r5(v0, v1) <-- r19(v0, v1);
+      r21(v0, v1) <-- r5(v0, v1), r20(v1);
+      r22(v0, v1) <-- r2(v0), r3(v1), r5(v0, v1);
+      r5(v0, v1) <-- r22(v0, v1);
+      r23(v0, v1) <-- r2(v0), r3(v1), r5(v0, v1);
+      r24(1, 1) <-- r5(1, 1);
+      r5(v0, v1) <-- r24(v0, v1);
+      r25(1, 3) <-- r5(1, 3);
+      r26(v0, v1) <-- r27(v0, v1), r5(v0, v1);
+      r5(v0, v1) <-- r26(v0, v1);
+      r28(v0, v1) <-- r27(v0, v1), r5(v0, v1);
+      r29(v0, v1) <-- r5(v0, v1), r27(v0, v1);
+      r5(v0, v1) <-- r29(v0, v1);
+      r30(v0, v1) <-- r5(v0, v1), r27(v0, v1);
+      r31(v0) <-- r5(v0, 1) if ((*v0) <= 1);
+   }
+   pub struct Inst { p: Prog, pool: Option<ascent::rayon::ThreadPool> }
+   pub fn make(pool: Option<usize>) -> Box<dyn Driver> {
+      let pool = pool.map(|n| ascent::rayon::ThreadPoolBuilder::new().num_threads(n).build().unwrap());
+      let p = Default::default();
+      Box::new(Inst { p, pool })
+   }
+   impl Driver for Inst {
+      fn load(&mut self, rel: usize, rows: &[Sexp], append: bool) -> Option<()> {
+         match rel {
+         0 => { let v: Vec<(i64,i64,)> = parse_rows(rows)?; if append { self.p.r0.extend(v) } else { self.p.r0 = v } },
+         1 => { let v: Vec<(i64,i64,)> = parse_rows(rows)?; if append { self.p.r1.extend(v) } else { self.p.r1 = v } },
+         2 => { let v: Vec<(i64,)> = parse_rows(rows)?; if append { self.p.r2.extend(v) } else { self.p.r2 = v } },
+         3 => { let v: Vec<(i64,)> = parse_rows(rows)?; if append { self.p.r3.extend(v) } else { self.p.r3 = v } },
+         4 => { let v: Vec<(i64,)> = parse_rows(rows)?; if append { self.p.r4.extend(v) } else { self.p.r4 = v } },
+         5 => return None,
+         6 => { let v: Vec<(i64,i64,)> = parse_rows(rows)?; if append { self.p.r6.extend(v) } else { self.p.r6 = v } },
+         7 => { let v: Vec<(i64,i64,)> = parse_rows(rows)?; if append { self.p.r7.extend(v) } else { self.p.r7 = v } },
+         8 => { let v: Vec<(i64,i64,)> = parse_rows(rows)?; if append { self.p.r8.extend(v) } else { self.p.r8 = v } },
+         9 => { let v: Vec<(i64,i64,)> = parse_rows(rows)?; if append { self.p.r9.extend(v) } else { self.p.r9 = v } },
+         10 => { let v: Vec<(i64,i64,)> = parse_rows(rows)?; if append { self.p.r10.extend(v) } else { self.p.r10 = v } },
+         11 => { let v: Vec<(i64,i64,)> = parse_rows(rows)?; if append { self.p.r11.extend(v) } else { self.p.r11 = v } },
+         12 => { let v: Vec<(i64,i64,)> = parse_rows(rows)?; if append { self.p.r12.extend(v) } else { self.p.r12 = v } },
+         13 => { let v: Vec<(i64,)> = parse_rows(rows)?; if append { self.p.r13.extend(v) } else { self.p.r13 = v } },
+         14 => { let v: Vec<(i64,i64,)> = parse_rows(rows)?; if append { self.p.r14.extend(v) } else { self.p.r14 = v } },
+         15 => { let v: Vec<(i64,i64,)> = parse_rows(rows)?; if append { self.p.r15.extend(v) } else { self.p.r15 = v } },
+         16 => { let v: Vec<(i64,i64,)> = parse_rows(rows)?; if append { self.p.r16.extend(v) } else { self.p.r16 = v } },
+         17 => { let v: Vec<(i64,i64,)> = parse_rows(rows)?; if append { self.p.r17.extend(v) } else { self.p.r17 = v } },
+         18 => { let v: Vec<(i64,i64,)> = parse_rows(rows)?; if append { self.p.r18.extend(v) } else { self.p.r18 = v } },
+         19 => { let v: Vec<(i64,i64,)> = parse_rows(rows)?; if append { self.p.r19.extend(v) } else { self.p.r19 = v } },
+         20 => { let v: Vec<(i64,)> = parse_rows(rows)?; if append { self.p.r20.extend(v) } else { self.p.r20 = v } },
+         21 => { let v: Vec<(i64,i64,)> = parse_rows(rows)?; if append { self.p.r21.extend(v) } else { self.p.r21 = v } },
+         22 => { let v: Vec<(i64,i64,)> = parse_rows(rows)?; if append { self.p.r22.extend(v) } else { self.p.r22 = v } },
+         23 => { let v: Vec<(i64,i64,)> = parse_rows(rows)?; if append { self.p.r23.extend(v) } else { self.p.r23 = v } },
+         24 => { let v: Vec<(i64,i64,)> = parse_rows(rows)?; if append { self.p.r24.extend(v) } else { self.p.r24 = v } },
+         25 => { let v: Vec<(i64,i64,)> = parse_rows(rows)?; if append { self.p.r25.extend(v) } else { self.p.r25 = v } },
+         26 => { let v: Vec<(i64,i64,)> = parse_rows(rows)?; if append { self.p.r26.extend(v) } else { self.p.r26 = v } },
+         27 => { let v: Vec<(i64,i64,)> = parse_rows(rows)?; if append { self.p.r27.extend(v) } else { self.p.r27 = v } },
+         28 => { let v: Vec<(i64,i64,)> = parse_rows(rows)?; if append { self.p.r28.extend(v) } else { self.p.r28 = v } },
+         29 => { let v: Vec<(i64,i64,)> = parse_rows(rows)?; if append { self.p.r29.extend(v) } else { self.p.r29 = v } },
+         30 => { let v: Vec<(i64,i64,)> = parse_rows(rows)?; if append { self.p.r30.extend(v) } else { self.p.r30 = v } },
+         31 => { let v: Vec<(i64,)> = parse_rows(rows)?; if append { self.p.r31.extend(v) } else { self.p.r31 = v } },
+            _ => return None,
+         }
+         Some(())
+      }
+      fn run(&mut self) { self.p.run() }
+      fn run_here(&mut self) { self.p.run() }
+      fn run_timeout(&mut self, k: usize) -> Option<bool> { let _ = k; None }
+      fn dump(&self) -> String { vec![dump_rel(0, self.p.r0.iter().map(Row::render).collect()), dump_rel(1, self.p.r1.iter().map(Row::render).collect()), dump_rel(2, self.p.r2.iter().map(Row::render).collect()), dump_rel(3, self.p.r3.iter().map(Row::render).collect()), dump_rel(4, self.p.r4.iter().map(Row::render).collect()), dump_rel(5, self.p.r5.iter().map(Row::render).collect()), dump_rel(6, self.p.r6.iter().map(Row::render).collect()), dump_rel(7, self.p.r7.iter().map(Row::render).collect()), dump_rel(8, self.p.r8.iter().map(Row::render).collect()), dump_rel(9, self.p.r9.iter().map(Row::render).collect()), dump_rel(10, self.p.r10.iter().map(Row::render).collect()), dump_rel(11, self.p.r11.iter().map(Row::render).collect()), dump_rel(12, self.p.r12.iter().map(Row::render).collect()), dump_rel(13, self.p.r13.iter().map(Row::render).collect()), dump_rel(14, self.p.r14.iter().map(Row::render).collect()), dump_rel(15, self.p.r15.iter().map(Row::render).collect()), dump_rel(16, self.p.r16.iter().map(Row::render).collect()), dump_rel(17, self.p.r17.iter().map(Row::render).collect()), dump_rel(18, self.p.r18.iter().map(Row::render).collect()), dump_rel(19, self.p.r19.iter().map(Row::render).collect()), dump_rel(20, self.p.r20.iter().map(Row::render).collect()), dump_rel(21, self.p.r21.iter().map(Row::render).collect()), dump_rel(22, self.p.r22.iter().map(Row::render).collect()), dump_rel(23, self.p.r23.iter().map(Row::render).collect()), dump_rel(24, self.p.r24.iter().map(Row::render).collect()), dump_rel(25, self.p.r25.iter().map(Row::render).collect()), dump_rel(26, self.p.r26.iter().map(Row::render).collect()), dump_rel(27, self.p.r27.iter().map(Row::render).collect()), dump_rel(28, self.p.r28.iter().map(Row::render).collect()), dump_rel(29, self.p.r29.iter().map(Row::render).collect()), dump_rel(30, self.p.r30.iter().map(Row::render).collect()), dump_rel(31, self.p.r31.iter().map(Row::render).collect())].join(" | ") }
+      fn iters(&self) -> String { format!("iters {}", self.p.scc_iters.iter().map(|x| x.to_string()).collect::<Vec<_>>().join(" ")) }
+   }
+}
+
+#[allow(unused, non_snake_case, clippy::all)]
+pub mod tn5 {
+   use ascent::*;
+   use ascent::aggregators::*;
+   use ascent::lattice::{Dual, set::Set};
+   use crate::common::*;
+   ascent! {
+      pub struct Prog;
+      relation r0(i64, i64, i64);
+      relation r1(i64, i64, i64);
+      relation r2(i64);
+      relation r3(i64);
+      relation r4(i64);
+      relation r5(i64, i64);
+      relation r6(i64, i64);
+      #[ds(ascent_byods_rels::eqrel)] relation r7(i64, i64, i64);
+      relation r8(i64, i64, i64);
+      relation r9(i64, i64, i64);
+      relation r10(i64, i64, i64);
+      relation r11(i64, i64, i64);
+      relation r12(i64);
+      relation r13(i64, i64, i64);
+      relation r14(i64, i64, i64);
+      relation r15(i64, i64, i64);
+      relation r16(i64);
+      relation r17(i64, i64, i64);
+      relation r18(i64, i64, i64);
+      relation r19(i64, i64, i64);
+      relation r20(i64, i64);
+      relation r21(i64, i64, i64);
+      relation r22(i64, i64, i64);
+      relation r23(i64, i64, i64);
+      relation r24(i64, i64, i64);
+      relation r25(i64, i64);
+      relation r26(i64, i64, i64);
+      relation r27(i64, i64, i64);
+      relation r28(i64, i64, i64);
+      relation r29(i64, i64, i64);
+      relation r30(i64, i64, i64);
+      relation r31(i64, i64, i64);
+      relation r32(i64, i64, i64);
+      relation r33(i64, i64, i64);
+      relation r34(i64, i64);
+      relation r35(i64);
+      r7(v9, v0, v1) <-- r0(v9, v0, v1);
+      r7(v9, v1, v0) <-- r1(v9, v0, v1);
+      r7(v9, v0, v2) <-- r7(v9, v0, v1), r1(v9, v1, v2);
+      r8(v0, v1, v2) <-- r7(v0, v1, v2);
+      r9(v0, v1, v2) <-- r4(v0), r7(v0, v1, v2);
+      r10(0, v1, v2) <-- r7(0, v1, v2);
+      r11(v0, v1, v2) <-- r7(v0, v1, v2), r12(v0);
+      r13(v0, v1, v2) <-- r2(v1), r7(v0, v1, v2);
+      r14(v0, 3, v2) <-- r7(v0, 3, v2);
+      r15(v0, v1, v2) <-- r7(v0, v1, v2), r16(v1);
+      r17(v0, v1, v2) <-- r4(v0), r2(v1), r7(v0, v1, v2);
+      r18(0, 0, v2) <-- r7(0, 0, v2);
+      r19(v0, v1, v2) <-- r20(v0, v1), r7(v0, v1, v2);
+      r21(v0, v1, v2) <-- r7(v0, v1, v2), r20(v0, v1);
+      r22(v0, v1, v2) <-- r4(v0), r3(v2), r7(v0, v1, v2);
+      r23(0, v1, 1) <-- r7(0, v1, 1);
+      r24(v0, v1, v2) <-- r25(v0, v2), r7(v0, v1, v2);
+      r26(v0, v1, v2) <-- r7(v0, v1, v2), r25(v0, v2);
+      r27(v0, v1, v2) <-- r2(v1), r3(v2), r7(v0, v1, v2);
+      r28(v0, 1, 1) <-- r7(v0, 1, 1);
+      r29(v0, v1, v2) <-- r4(v0), r2(v1), r3(v2), r7(v0, v1, v2);
+      r30(0, 3, 0) <-- r7(0, 3, 0);
+      r31(v0, v1, v2) <-- r32(v0, v1, v2), r7(v0, v1, v2);
+      r33(v0, v1, v2) <-- r7(v0, v1, v2), r32(v0, v1, v2);
+      r34(v1, v3) <-- r20(v0, v1), r7(((*v1) + 1), v2, v3), r28(v4, 3, v2) if ((*v4) <= 1);
+      r35(v0) <-- r7(0, v0, 3) if ((*v0) != 4);
+   }
+   pub struct Inst { p: Prog, pool: Option<ascent::rayon::ThreadPool> }
+   pub fn make(pool: Option<usize>) -> Box<dyn Driver> {
+      let pool = pool.map(|n| ascent::rayon::ThreadPoolBuilder::new().num_threads(n).build().unwrap());
+      let p = Default::default();
+      Box::new(Inst { p, pool })
+   }
+   impl Driver for Inst {
+      fn load(&mut self, rel: usize, rows: &[Sexp], append: bool) -> Option<()> {
+         match rel {
+         0 => { let v: Vec<(i64,i64,i64,)> = parse_rows(rows)?; if append { self.p.r0.extend(v) } else { self.p.r0 = v } },
+         1 => { let v: Vec<(i64,i64,i64,)> = parse_rows(rows)?; if append { self.p.r1.extend(v) } else { self.p.r1 = v } },
+         2 => { let v: Vec<(i64,)> = parse_rows(rows)?; if append { self.p.r2.extend(v) } else { self.p.r2 = v } },
+         3 => { let v: Vec<(i64,)> = parse_rows(rows)?; if append { self.p.r3.extend(v) } else { self.p.r3 = v } },
+         4 => { let v: Vec<(i64,)> = parse_rows(rows)?; if append { self.p.r4.extend(v) } else { self.p.r4 = v } },
+         5 => { let v: Vec<(i64,i64,)> = parse_rows(rows)?; if append { self.p.r5.extend(v) } else { self.p.r5 = v } },
+         6 => { let v: Vec<(i64,i64,)> = parse_rows(rows)?; if append { self.p.r6.extend(v) } else { self.p.r6 = v } },
+         7 => return None,
+         8 => { let v: Vec<(i64,i64,i64,)> = parse_rows(rows)?; if append { self.p.r8.extend(v) } else { self.p.r8 = v } },
+         9 => { let v: Vec<(i64,i64,i64,)> = parse_rows(rows)?; if append { self.p.r9.extend(v) } else { self.p.r9 = v } },
+         10 => { let v: Vec<(i64,i64,i64,)> = parse_rows(rows)?; if append { self.p.r10.extend(v) } else { self.p.r10 = v } },
+         11 => { let v: Vec<(i64,i64,i64,)> = parse_rows(rows)?; if append { self.p.r11.extend(v) } else { self.p.r11 = v } },
+         12 => { let v: Vec<(i64,)> = parse_rows(rows)?; if append { self.p.r12.extend(v) } else { self.p.r12 = v } },
+         13 => { let v: Vec<(i64,i64,i64,)> = parse_rows(rows)?; if append { self.p.r13.extend(v) } else { self.p.r13 = v } },
+         14 => { let v: Vec<(i64,i64,i64,)> = parse_rows(rows)?; if append { self.p.r14.extend(v) } else { self.p.r14 = v } },
+         15 => { let v: Vec<(i64,i64,i64,)> = parse_rows(rows)?; if append { self.p.r15.extend(v) } else { self.p.r15 = v } },
+         16 => { let v: Vec<(i64,)> = parse_rows(rows)?; if append { self.p.r16.extend(v) } else { self.p.r16 = v } },
+         17 => { let v: Vec<(i64,i64,i64,)> = parse_rows(rows)?; if append { self.p.r17.extend(v) } else { self.p.r17 = v } },
+         18 => { let v: Vec<(i64,i64,i64,)> = parse_rows(rows)?; if append { self.p.r18.extend(v) } else { self.p.r18 = v } },
+         19 => { let v: Vec<(i64,i64,i64,)> = parse_rows(rows)?; if append { self.p.r19.extend(v) } else { self.p.r19 = v } },
+         20 => { let v: Vec<(i64,i64,)> = parse_rows(rows)?; if append { self.p.r20.extend(v) } else { self.p.r20 = v } },
+         21 => { let v: Vec<(i64,i64,i64,)> = parse_rows(rows)?; if append { self.p.r21.extend(v) } else { self.p.r21 = v } },
+         22 => { let v: Vec<(i64,i64,i64,)> = parse_rows(rows)?; if append { self.p.r22.extend(v) } else { self.p.r22 = v } },
+         23 => { let v: Vec<(i64,i64,i64,)> = parse_rows(rows)?; if append { self.p.r23.extend(v) } else { self.p.r23 = v } },
+         24 => { let v: Vec<(i64,i64,i64,)> = parse_rows(rows)?; if append { self.p.r24.extend(v) } else { self.p.r24 = v } },
+         25 => { let v: Vec<(i64,i64,)> = parse_rows(rows)?; if append { self.p.r25.extend(v) } else { self.p.r25 = v } },
+         26 => { let v: Vec<(i64,i64,i64,)> = parse_rows(rows)?; if append { self.p.r26.extend(v) } else { self.p.r26 = v } },
+         27 => { let v: Vec<(i64,i64,i64,)> = parse_rows(rows)?; if append { self.p.r27.extend(v) } else { self.p.r27 = v } },
+         28 => { let v: Vec<(i64,i64,i64,)> = parse_rows(rows)?; if append { self.p.r28.extend(v) } else { self.p.r28 = v } },
+         29 => { let v: Vec<(i64,i64,i64,)> = parse_rows(rows)?; if append { self.p.r29.extend(v) } else { self.p.r29 = v } },
+         30 => { let v: Vec<(i64,i64,i64,)> = parse_rows(rows)?; if append { self.p.r30.extend(v) } else { self.p.r30 = v } },
+         31 => { let v: Vec<(i64,i64,i64,)> = parse_rows(rows)?; if append { self.p.r31.extend(v) } else { self.p.r31 = v } },
+         32 => { let v: Vec<(i64,i64,i64,)> = parse_rows(rows)?; if append { self.p.r32.extend(v) } else { self.p.r32 = v } },
+         33 => { let v: Vec<(i64,i64,i64,)> = parse_rows(rows)?; if append { self.p.r33.extend(v) } else { self.p.r33 = v } },
+         34 => { let v: Vec<(i64,i64,)> = parse_rows(rows)?; if append { self.p.r34.extend(v) } else { self.p.r34 = v } },
+         35 => { let v: Vec<(i64,)> = parse_rows(rows)?; if append { self.p.r35.extend(v) } else { self.p.r35 = v } },
+            _ => return None,
+         }
+         Some(())
+      }
+      fn run(&mut self) { self.p.run() }
+      fn run_here(&mut self) { self.p.run() }
+      fn run_timeout(&mut self, k: usize) -> Option<bool> { let _ = k; None }
+      fn dump(&self) -> String { vec![dump_rel(0, self.p.r0.iter().map(Row::render).collect()), dump_rel(1, self.p.r1.iter().map(Row::render).collect()), dump_rel(2, self.p.r2.iter().map(Row::render).collect()), dump_rel(3, self.p.r3.iter().map(Row::render).collect()), dump_rel(4, self.p.r4.iter().map(Row::render).collect()), dump_rel(5, self.p.r5.iter().map(Row::render).collect()), dump_rel(6, self.p.r6.iter().map(Row::render).collect()), dump_rel(7, self.p.r7.iter().map(Row::render).collect()), dump_rel(8, self.p.r8.iter().map(Row::render).collect()), dump_rel(9, self.p.r9.iter().map(Row::render).collect()), dump_rel(10, self.p.r10.iter().map(Row::render).collect()), dump_rel(11, self.p.r11.iter().map(Row::render).collect()), dump_rel(12, self.p.r12.iter().map(Row::render).collect()), dump_rel(13, self.p.r13.iter().map(Row::render).collect()), dump_rel(14, self.p.r14.iter().map(Row::render).collect()), dump_rel(15, self.p.r15.iter().map(Row::render).collect()), dump_rel(16, self.p.r16.iter().map(Row::render).collect()), dump_rel(17, self.p.r17.iter().map(Row::render).collect()), dump_rel(18, self.p.r18.iter().map(Row::render).collect()), dump_rel(19, self.p.r19.iter().map(Row::render).collect()), dump_rel(20, self.p.r20.iter().map(Row::render).collect()), dump_rel(21, self.p.r21.iter().map(Row::render).collect()), dump_rel(22, self.p.r22.iter().map(Row::render).collect()), dump_rel(23, self.p.r23.iter().map(Row::render).collect()), dump_rel(24, self.p.r24.iter().map(Row::render).collect()), dump_rel(25, self.p.r25.iter().map(Row::render).collect()), dump_rel(26, self.p.r26.iter().map(Row::render).collect()), dump_rel(27, self.p.r27.iter().map(Row::render).collect()), dump_rel(28, self.p.r28.iter().map(Row::render).collect()), dump_rel(29, self.p.r29.iter().map(Row::render).collect()), dump_rel(30, self.p.r30.iter().map(Row::render).collect()), dump_rel(31, self.p.r31.iter().map(Row::render).collect()), dump_rel(32, self.p.r32.iter().map(Row::render).collect()), dump_rel(33, self.p.r33.iter().map(Row::render).collect()), dump_rel(34, self.p.r34.iter().map(Row::render).collect()), dump_rel(35, self.p.r35.iter().map(Row::render).collect())].join(" | ") }
+      fn iters(&self) -> String { format!("iters {}", self.p.scc_iters.iter().map(|x| x.to_string()).collect::<Vec<_>>().join(" ")) }
+   }
+}
+
+#[allow(unused, non_snake_case, clippy::all)]
+pub mod bn7 {
+   use ascent::*;
+   use ascent::aggregators::*;
+   use ascent::lattice::{Dual, set::Set};
+   use crate::common::*;
+   ascent! {
+      pub struct Prog;
+      relation r0(i64, i64);
+      relation r1(i64, i64);
+      relation r2(i64);
+      relation r3(i64);
+      relation r4(i64);
+      #[ds(ascent_byods_rels::eqrel)] relation r5(i64, i64);
+      relation r6(i64, i64);
+      relation r7(i64, i64);
+      relation r8(i64, i64);
+      relation r9(i64, i64);
+      relation r10(i64);
+      relation r11(i64, i64);
+      relation r12(i64, i64);
+      relation r13(i64, i64);
+      relation r14(i64);
+      relation r15(i64, i64);
+      relation r16(i64, i64);
+      relation r17(i64, i64);
+      relation r18(i64, i64);
+      relation r19(i64, i64);
+      relation r20(i64, i64);
+      relation r21(i64, i64);
+      relation r22(i64, i64);
+      r5(v0, v1) <-- r0(v0, v1);
+      r5(v1, v0) <-- r1(v0, v1);
+      r6(v0, v1) <-- r5(v0, v1);
+      r7(v0, v1) <-- r2(v0), r5(v0, v1);
+      r8(2, v1) <-- r5(2, v1);
+      r9(v0, v1) <-- r5(v0, v1), r10(v0);
+      r11(v0, v1) <-- r3(v1), r5(v0, v1);
+      r12(v0, 0) <-- r5(v0, 0);
+      r13(v0, v1) <-- r5(v0, v1), r14(v1);
+      r15(v0, v1) <-- r2(v0), r3(v1), r5(v0, v1);
+      r16(1, 2) <-- r5(1, 2);
+      r17(v0, v1) <-- r18(v0, v1), r5(v0, v1);
+      r19(v0, v1) <-- r5(v0, v1), r18(v0, v1);
+      r20(v0, v1) <-- r5(v0, v1), r0(v0, v1);
+      r21(v0, v1) <-- r15(v0, v1), r5(v2, v3) if ((*v1) < 6) let v4 = ((*v2) + 0), r1(((*v2) + 0), v0) if ((*v3) <= 2) let v5 = ((*v2) + 1);
+      r22(v0, ((*v0) + 1)) <-- r10(v0), r5(v0, 1), if ((*v0) < 6);
+   }
+   pub struct Inst { p: Prog, pool: Option<ascent::rayon::ThreadPool> }
+   pub fn make(pool: Option<usize>) -> Box<dyn Driver> {
+      let pool = pool.map(|n| ascent::rayon::ThreadPoolBuilder::new().num_threads(n).build().unwrap());
+      let p = Default::default();
+      Box::new(Inst { p, pool })
+   }
+   impl Driver for Inst {
+      fn load(&mut self, rel: usize, rows: &[Sexp], append: bool) -> Option<()> {
+         match rel {
+         0 => { let v: Vec<(i64,i64,)> = parse_rows(rows)?; if append { self.p.r0.extend(v) } else { self.p.r0 = v } },
+         1 => { let v: Vec<(i64,i64,)> = parse_rows(rows)?; if append { self.p.r1.extend(v) } else { self.p.r1 = v } },
+         2 => { let v: Vec<(i64,)> = parse_rows(rows)?; if append { self.p.r2.extend(v) } else { self.p.r2 = v } },
+         3 => { let v: Vec<(i64,)> = parse_rows(rows)?; if append { self.p.r3.extend(v) } else { self.p.r3 = v } },
+         4 => { let v: Vec<(i64,)> = parse_rows(rows)?; if append { self.p.r4.extend(v) } else { self.p.r4 = v } },
+         5 => return None,
+         6 => { let v: Vec<(i64,i64,)> = parse_rows(rows)?; if append { self.p.r6.extend(v) } else { self.p.r6 = v } },
+         7 => { let v: Vec<(i64,i64,)> = parse_rows(rows)?; if append { self.p.r7.extend(v) } else { self.p.r7 = v } },
+         8 => { let v: Vec<(i64,i64,)> = parse_rows(rows)?; if append { self.p.r8.extend(v) } else { self.p.r8 = v } },
+         9 => { let v: Vec<(i64,i64,)> = parse_rows(rows)?; if append { self.p.r9.extend(v) } else { self.p.r9 = v } },
+         10 => { let v: Vec<(i64,)> = parse_rows(rows)?; if append { self.p.r10.extend(v) } else { self.p.r10 = v } },
+         11 => { let v: Vec<(i64,i64,)> = parse_rows(rows)?; if append { self.p.r11.extend(v) } else { self.p.r11 = v } },
+         12 => { let v: Vec<(i64,i64,)> = parse_rows(rows)?; if append { self.p.r12.extend(v) } else { self.p.r12 = v } },
+         13 => { let v: Vec<(i64,i64,)> = parse_rows(rows)?; if append { self.p.r13.extend(v) } else { self.p.r13 = v } },
+         14 => { let v: Vec<(i64,)> = parse_rows(rows)?; if append { self.p.r14.extend(v) } else { self.p.r14 = v } },
+         15 => { let v: Vec<(i64,i64,)> = parse_rows(rows)?; if append { self.p.r15.extend(v) } else { self.p.r15 = v } },
+         16 => { let v: Vec<(i64,i64,)> = parse_rows(rows)?; if append { self.p.r16.extend(v) } else { self.p.r16 = v } },
+         17 => { let v: Vec<(i64,i64,)> = parse_rows(rows)?; if append { self.p.r17.extend(v) } else { self.p.r17 = v } },
+         18 => { let v: Vec<(i64,i64,)> = parse_rows(rows)?; if append { self.p.r18.extend(v) } else { self.p.r18 = v } },
+         19 => { let v: Vec<(i64,i64,)> = parse_rows(rows)?; if append { self.p.r19.extend(v) } else { self.p.r19 = v } },
+         20 => { let v: Vec<(i64,i64,)> = parse_rows(rows)?; if append { self.p.r20.extend(v) } else { self.p.r20 = v } },
+         21 => { let v: Vec<(i64,i64,)> = parse_rows(rows)?; if append { self.p.r21.extend(v) } else { self.p.r21 = v } },
+         22 => { let v: Vec<(i64,i64,)> = parse_rows(rows)?; if append { self.p.r22.extend(v) } else { self.p.r22 = v } },
+            _ => return None,
+         }
+         Some(())
+      }
+      fn run(&mut self) { self.p.run() }
+      fn run_here(&mut self) { self.p.run() }
+      fn run_timeout(&mut self, k: usize) -> Option<bool> { let _ = k; None }
+      fn dump(&self) -> String { vec![dump_rel(0, self.p.r0.iter().map(Row::render).collect()), dump_rel(1, self.p.r1.iter().map(Row::render).collect()), dump_rel(2, self.p.r2.iter().map(Row::render).collect()), dump_rel(3, self.p.r3.iter().map(Row::render).collect()), dump_rel(4, self.p.r4.iter().map(Row::render).collect()), dump_rel(5, self.p.r5.iter().map(Row::render).collect()), dump_rel(6, self.p.r6.iter().map(Row::render).collect()), dump_rel(7, self.p.r7.iter().map(Row::render).collect()), dump_rel(8, self.p.r8.iter().map(Row::render).collect()), dump_rel(9, self.p.r9.iter().map(Row::render).collect()), dump_rel(10, self.p.r10.iter().map(Row::render).collect()), dump_rel(11, self.p.r11.iter().map(Row::render).collect()), dump_rel(12, self.p.r12.iter().map(Row::render).collect()), dump_rel(13, self.p.r13.iter().map(Row::render).collect()), dump_rel(14, self.p.r14.iter().map(Row::render).collect()), dump_rel(15, self.p.r15.iter().map(Row::render).collect()), dump_rel(16, self.p.r16.iter().map(Row::render).collect()), dump_rel(17, self.p.r17.iter().map(Row::render).collect()), dump_rel(18, self.p.r18.iter().map(Row::render).collect()), dump_rel(19, self.p.r19.iter().map(Row::render).collect()), dump_rel(20, self.p.r20.iter().map(Row::render).collect()), dump_rel(21, self.p.r21.iter().map(Row::render).collect()), dump_rel(22, self.p.r22.iter().map(Row::render).collect())].join(" | ") }
+      fn iters(&self) -> String { format!("iters {}", self.p.scc_iters.iter().map(|x| x.to_string()).collect::<Vec<_>>().join(" ")) }
+   }
+}
+
+#[allow(unused, non_snake_case, clippy::all)]
+pub mod br8 {
+   use ascent::*;
+   use ascent::aggregators::*;
+   use ascent::lattice::{Dual, set::Set};
+   use crate::common::*;
+   ascent! {
+      pub struct Prog;
+      relation r0(i64, i64);
+      relation r1(i64, i64);
+      relation r2(i64);
+      relation r3(i64);
+      relation r4(i64);
+      #[ds(ascent_byods_rels::eqrel)] relation r5(i64, i64);
+      relation r6(i64, i64);
+      relation r7(i64, i64);
+      relation r8(i64, i64);
+      relation r9(i64, i64);
+      relation r10(i64, i64);
+      relation r11(i64, i64);
+      relation r12(i64, i64);
+      relation r13(i64);
+      relation r14(i64, i64);
+      relation r15(i64, i64);
+      relation r16(i64, i64);
+      relation r17(i64, i64);
+      relation r18(i64, i64);
+      relation r19(i64, i64);
+      relation r20(i64);
+      relation r21(i64, i64);
+      relation r22(i64, i64);
+      relation r23(i64, i64);
+      relation r24(i64, i64);
+      relation r25(i64, i64);
+      relation r26(i64, i64);
+      relation r27(i64, i64);
+      relation r28(i64, i64);
+      relation r29(i64, i64);
+      relation r30(i64, i64);
+      relation r31(i64, i64);
+      r5(v0, v1) <-- r4(v0), r0(v0, v1);
+      r4(v1) <-- r4(v0), r5(v0, v1);
+      r5(v0, v1) <-- r1(v0, v1);
+      r6(v0, v1) <-- r5(v0, v1);
+      r5(v0, v1) <-- r6(v0, v1);
+      r7(v0, v1) <-- r5(v0, v1);
+      r8(v0, v1) <-- r2(v0), r5(v0, v1);
+      r5(v0, v1) <-- r8(v0, v1);
+      r9(v0, v1) <-- r2(v0), r5(v0, v1);
+      r10(1, v1) <-- r5(1, v1);
+      r5(v0, v1) <-- r10(v0, v1);
+      r11(3, v1) <-- r5(3, v1);
+      r12(v0, v1) <-- r5(v0, v1), r13(v0);
+      r5(v0, v1) <-- r12(v0, v1);
+      r14(v0, v1) <-- r5(v0, v1), r13(v0);
+      r15(v0, v1) <-- r3(v1), r5(v0, v1);
+      r5(v0, v1) <-- r15(v0, v1);
+      r16(v0, v1) <-- r3(v1), r5(v0, v1);
+      r17(v0, 3) <-- r5(v0, 3);
+      r5(v0, v1) <-- r17(v0, v1);
+      r18(v0, 2) <-- r5(v0, 2);
+      r19(v0, v1) <-- r5(v0, v1), r20(v1);
+      r5(v0, v1) <-- r19(v0, v1);
+      r21(v0, v1) <-- r5(v0, v1), r20(v1);
+      r22(v0, v1) <-- r2(v0), r3(v1), r5(v0, v1);
+      r5(v0, v1) <-- r22(v0, v1);
+      r23(v0, v1) <-- r2(v0), r3(v1), r5(v0, v1);
+      r24(2, 0) <-- r5(2, 0);
+      r5(v0, v1) <-- r24(v0, v1);
+      r25(3, 2) <-- r5(3, 2);
+      r26(v0, v1) <-- r27(v0, v1), r5(v0, v1);
+      r5(v0, v1) <-- r26(v0, v1);
+      r28(v0, v1) <-- r27(v0, v1), r5(v0, v1);
+      r29(v0, v1) <-- r5(v0, v1), r27(v0, v1);
+      r5(v0, v1) <-- r29(v0, v1);
+      r30(v0, v1) <-- r5(v0, v1), r27(v0, v1);
+      r5(v1, v0) <-- r16(0, v0) if ((*v0) < 2), r5(v0, 1), r27(v1, ((*v0) + 0));
+   }
+   pub struct Inst { p: Prog, pool: Option<ascent::rayon::ThreadPool> }
+   pub fn make(pool: Option<usize>) -> Box<dyn Driver> {
+      let pool = pool.map(|n| ascent::rayon::ThreadPoolBuilder::new().num_threads(n).build().unwrap());
+      let p = Default::default();
+      Box::new(Inst { p, pool })
+   }
+   impl Driver for Inst {
+      fn load(&mut self, rel: usize, rows: &[Sexp], append: bool) -> Option<()> {
+         match rel {
+         0 => { let v: Vec<(i64,i64,)> = parse_rows(rows)?; if append { self.p.r0.extend(v) } else { self.p.r0 = v } },
+         1 => { let v: Vec<(i64,i64,)> = parse_rows(rows)?; if append { self.p.r1.extend(v) } else { self.p.r1 = v } },
+         2 => { let v: Vec<(i64,)> = parse_rows(rows)?; if append { self.p.r2.extend(v) } else { self.p.r2 = v } },
+         3 => { let v: Vec<(i64,)> = parse_rows(rows)?; if append { self.p.r3.extend(v) } else { self.p.r3 = v } },
+         4 => { let v: Vec<(i64,)> = parse_rows(rows)?; if append { self.p.r4.extend(v) } else { self.p.r4 = v } },
+         5 => return None,
+         6 => { let v: Vec<(i64,i64,)> = parse_rows(rows)?; if append { self.p.r6.extend(v) } else { self.p.r6 = v } },
+         7 => { let v: Vec<(i64,i64,)> = parse_rows(rows)?; if append { self.p.r7.extend(v) } else { self.p.r7 = v } },
+         8 => { let v: Vec<(i64,i64,)> = parse_rows(rows)?; if append { self.p.r8.extend(v) } else { self.p.r8 = v } },
+         9 => { let v: Vec<(i64,i64,)> = parse_rows(rows)?; if append { self.p.r9.extend(v) } else { self.p.r9 = v } },
+         10 => { let v: Vec<(i64,i64,)> = parse_rows(rows)?; if append { self.p.r10.extend(v) } else { self.p.r10 = v } },
+         11 => { let v: Vec<(i64,i64,)> = parse_rows(rows)?; if append { self.p.r11.extend(v) } else { self.p.r11 = v } },
+         12 => { let v: Vec<(i64,i64,)> = parse_rows(rows)?; if append { self.p.r12.extend(v) } else { self.p.r12 = v } },
+         13 => { let v: Vec<(i64,)> = parse_rows(rows)?; if append { self.p.r13.extend(v) } else { self.p.r13 = v } },
+         14 => { let v: Vec<(i64,i64,)> = parse_rows(rows)?; if append { self.p.r14.extend(v) } else { self.p.r14 = v } },
+         15 => { let v: Vec<(i64,i64,)> = parse_rows(rows)?; if append { self.p.r15.extend(v) } else { self.p.r15 = v } },
+         16 => { let v: Vec<(i64,i64,)> = parse_rows(rows)?; if append { self.p.r16.extend(v) } else { self.p.r16 = v } },
+         17 => { let v: Vec<(i64,i64,)> = parse_rows(rows)?; if append { self.p.r17.extend(v) } else { self.p.r17 = v } },
+         18 => { let v: Vec<(i64,i64,)> = parse_rows(rows)?; if append { self.p.r18.extend(v) } else { self.p.r18 = v } },
+         19 => { let v: Vec<(i64,i64,)> = parse_rows(rows)?; if append { self.p.r19.extend(v) } else { self.p.r19 = v } },
+         20 => { let v: Vec<(i64,)> = parse_rows(rows)?; if append { self.p.r20.extend(v) } else { self.p.r20 = v } },
+         21 => { let v: Vec<(i64,i64,)> = parse_rows(rows)?; if append { self.p.r21.extend(v) } else { self.p.r21 = v } },
+         22 => { let v: Vec<(i64,i64,)> = parse_rows(rows)?; if append { self.p.r22.extend(v) } else { self.p.r22 = v } },
+         23 => { let v: Vec<(i64,i64,)> = parse_rows(rows)?; if append { self.p.r23.extend(v) } else { self.p.r23 = v } },
+         24 => { let v: Vec<(i64,i64,)> = parse_rows(rows)?; if append { self.p.r24.extend(v) } else { self.p.r24 = v } },
+         25 => { let v: Vec<(i64,i64,)> = parse_rows(rows)?; if append { self.p.r25.extend(v) } else { self.p.r25 = v } },
+         26 => { let v: Vec<(i64,i64,)> = parse_rows(rows)?; if append { self.p.r26.extend(v) } else { self.p.r26 = v } },
+         27 => { let v: Vec<(i64,i64,)> = parse_rows(rows)?; if append { self.p.r27.extend(v) } else { self.p.r27 = v } },
+         28 => { let v: Vec<(i64,i64,)> = parse_rows(rows)?; if append { self.p.r28.extend(v) } else { self.p.r28 = v } },
+         29 => { let v: Vec<(i64,i64,)> = parse_rows(rows)?; if append { self.p.r29.extend(v) } else { self.p.r29 = v } },
+         30 => { let v: Vec<(i64,i64,)> = parse_rows(rows)?; if append { self.p.r30.extend(v) } else { self.p.r30 = v } },
+         31 => { let v: Vec<(i64,i64,)> = parse_rows(rows)?; if append { self.p.r31.extend(v) } else { self.p.r31 = v } },
+            _ => return None,
+         }
+         Some(())
+      }
+      fn run(&mut self) { self.p.run() }
+      fn run_here(&mut self) { self.p.run() }
+      fn run_timeout(&mut self, k: usize) -> Option<bool> { let _ = k; None }
+      fn dump(&self) -> String { vec![dump_rel(0, self.p.r0.iter().map(Row::render).collect()), dump_rel(1, self.p.r1.iter().map(Row::render).collect()), dump_rel(2, self.p.r2.iter().map(Row::render).collect()), dump_rel(3, self.p.r3.iter().map(Row::render).collect()), dump_rel(4, self.p.r4.iter().map(Row::render).collect()), dump_rel(5, self.p.r5.iter().map(Row::render).collect()), dump_rel(6, self.p.r6.iter().map(Row::render).collect()), dump_rel(7, self.p.r7.iter().map(Row::render).collect()), dump_rel(8, self.p.r8.iter().map(Row::render).collect()), dump_rel(9, self.p.r9.iter().map(Row::render).collect()), dump_rel(10, self.p.r10.iter().map(Row::render).collect()), dump_rel(11, self.p.r11.iter().map(Row::render).collect()), dump_rel(12, self.p.r12.iter().map(Row::render).collect()), dump_rel(13, self.p.r13.iter().map(Row::render).collect()), dump_rel(14, self.p.r14.iter().map(Row::render).collect()), dump_rel(15, self.p.r15.iter().map(Row::render).collect()), dump_rel(16, self.p.r16.iter().map(Row::render).collect()), dump_rel(17, self.p.r17.iter().map(Row::render).collect()), dump_rel(18, self.p.r18.iter().map(Row::render).collect()), dump_rel(19, self.p.r19.iter().map(Row::render).collect()), dump_rel(20, self.p.r20.iter().map(Row::render).collect()), dump_rel(21, self.p.r21.iter().map(Row::render).collect()), dump_rel(22, self.p.r22.iter().map(Row::render).collect()), dump_rel(23, self.p.r23.iter().map(Row::render).collect()), dump_rel(24, self.p.r24.iter().map(Row::render).collect()), dump_rel(25, self.p.r25.iter().map(Row::render).collect()), dump_rel(26, self.p.r26.iter().map(Row::render).collect()), dump_rel(27, self.p.r27.iter().map(Row::render).collect()), dump_rel(28, self.p.r28.iter().map(Row::render).collect()), dump_rel(29, self.p.r29.iter().map(Row::render).collect()), dump_rel(30, self.p.r30.iter().map(Row::render).collect()), dump_rel(31, self.p.r31.iter().map(Row::render).collect())].join(" | ") }
+      fn iters(&self) -> String { format!("iters {}", self.p.scc_iters.iter().map(|x| x.to_string()).collect::<Vec<_>>().join(" ")) }
+   }
+}
+
+#[allow(unused, non_snake_case, clippy::all)]
+pub mod tj4 {
    use ascent::*;
    use ascent::aggregators::*;
    use ascent::lattice::{Dual, set::Set};
@@ -359,5 +933,5 @@ pub mod w6 {
 }
 
 fn main() {
-   common::main_loop(&[("br0", br0::make as common::Factory), ("tn1", tn1::make as common::Factory), ("tj0", tj0::make as common::Factory), ("w6", w6::make as common::Factory)]);
+   common::main_loop(&[("br0", br0::make as common::Factory), ("tn1", tn1::make as common::Factory), ("bn3", bn3::make as common::Factory), ("br4", br4::make as common::Factory), ("tn5", tn5::make as common::Factory), ("bn7", bn7::make as common::Factory), ("br8", br8::make as common::Factory), ("tj4", tj4::make as common::Factory), ("w6", w6::make as common::Factory)]);
 }
